@@ -360,6 +360,7 @@ func runC11(r *Run) {
 
 // C10 (decode half): hostile bytes never panic and never allocate out of proportion
 func runC10(r *Run) {
+	runLedger(r, "C10") // validation half: structure-aware adversarial blocks on generated chains
 	rec := recodable()
 	nper := r.pick(40, 1500)
 	for _, tt := range genAllTypes {
